@@ -63,6 +63,30 @@ def mapping(d, how):
     return dict(d)
 
 
+def caller_dicts(dicts, shared=False):
+    """The caller's dictionaries: fresh objects, or (shared) ONE object wherever a dictionary repeats the one
+    before it — the same record handed in twice."""
+    out = []
+    for i, d in enumerate(dicts):
+        if shared and i and list(d.items()) == list(dicts[i - 1].items()) and wire.same(d, dicts[i - 1]):
+            out.append(out[-1])
+        else:
+            out.append(dict(d))
+    return out
+
+
+def spoil_input(*ds):
+    """After the operation the caller goes on using its dictionary: empties it, puts something else in.  A row
+    is built from the dictionary when it is built; it does not follow the dictionary afterwards.  (Top level
+    only: the values themselves are the row's cells.)"""
+    for d in ds:
+        try:
+            d.clear()
+            d[SENT] = SENT
+        except Exception:
+            pass
+
+
 def raised(e):
     return {"__raised__": type(e).__name__}
 
@@ -74,87 +98,193 @@ def is_raised(x):
 # ----------------------------------------------------------------------------- implementation: one row
 
 
-def views_of(row, probes, default):
-    """Every view the property names, read twice (a view must not change by having been read)."""
-    out = {}
+VIEWS = ("as_map", "as_dict", "values", "keys", "as_json")
+OUT_KEY = {"as_map": "as_map", "as_dict": "as_dict", "values": "values", "keys": "keys", "as_json": "json"}
+SENT = "__c02_changed__"
+AFTER = "after the caller changed the objects earlier reads returned (a view is rebuilt from the row, never aliased): "
 
-    def read():
-        o = {"row": canon(tuple(row))}
-        o["as_map"] = [[k, canon(v)] for k, v in row.as_map]
-        o["as_dict"] = [[k, canon(v)] for k, v in row.as_dict.items()]
-        o["values"] = canon(row.values)
-        o["keys"] = list(row.keys())
+
+def _read_view(row, name):
+    return row.keys() if name == "keys" else getattr(row, name)
+
+
+def _snap(name, obj):
+    """Canonical copy of what a view returned, taken at once (shares no container with the object)."""
+    if name == "as_map":
+        return [[k, canon(v)] for k, v in obj]
+    if name == "as_dict":
+        return [[k, canon(v)] for k, v in obj.items()]
+    if name == "values":
+        return canon(tuple(obj))
+    if name == "keys":
+        return list(obj)
+    return json.loads(obj)
+
+
+def _change(name, obj):
+    """What a caller may do to the TOP LEVEL of an object a view handed out: drop the first entry, overwrite the
+    next one, add one.  Cells are never touched (they are the row's own values).  True when the object is of a
+    kind that can be changed at all; tuples, bytes and the like are left alone."""
+    if isinstance(obj, dict):
+        ks = list(obj)
+        if ks:
+            obj.pop(ks[0])
+        if len(ks) > 1:
+            obj[ks[1]] = SENT
+        obj[SENT] = SENT
+        return True
+    if isinstance(obj, list):
+        if obj:
+            obj.pop(0)
+        if obj:
+            first = obj[0]
+            if name == "as_map" and isinstance(first, (list, tuple)) and len(first) == 2:
+                obj[0] = (first[0], SENT)  # the pair is the view's own container, the cell is not touched
+            else:
+                obj[0] = SENT
+        obj.append((SENT, SENT) if name == "as_map" else SENT)
+        return True
+    if isinstance(obj, bytearray):
+        obj[:] = b"{}"
+        return True
+    if isinstance(obj, set):
+        obj.clear()
+        return True
+    return False
+
+
+def views_of(row, probes, default, plan=None):
+    """Every view the property names, on ONE row object: read (`plan["first"]`, default all), read again
+    unchanged, then the caller changes every object it was handed that can be changed, then everything is read
+    once more (`plan["then"]`, default all) — a view must not change by having been read, nor by what the
+    caller did to an earlier result.  Each pass is judged against the row."""
+    first = list((plan or {}).get("first", VIEWS))
+    then = list((plan or {}).get("then", VIEWS))
+    held = []
+
+    def read(names, o):
+        o["row"] = canon(tuple(row))
+        for n in names:
+            if n == "as_json":
+                try:
+                    obj = row.as_json
+                    held.append((n, obj))
+                    o["json"] = _snap(n, obj)
+                except Exception as e:
+                    if json_native(o["row"]):  # orjson refuses some values (integers beyond 64 bits): not this property's business
+                        o["json"] = raised(e)
+                continue
+            obj = _read_view(row, n)
+            held.append((n, obj))
+            o[OUT_KEY[n]] = _snap(n, obj)
         return o
 
+    def gets(o):
+        o["gets"] = []
+        for p in probes:
+            try:
+                o["gets"].append(canon(row.get(p, default)))
+            except Exception as e:
+                o["gets"].append(raised(e))
+        try:
+            o["get_nodefault"] = [canon(row.get(p)) for p in probes]
+        except Exception as e:
+            o["get_nodefault"] = raised(e)
+
+    out = {}
     try:
-        out.update(read())
+        read(first, out)
     except Exception as e:
         return {"views_raised": type(e).__name__}
-    out["gets"] = []
-    for p in probes:
-        try:
-            out["gets"].append(canon(row.get(p, default)))
-        except Exception as e:
-            out["gets"].append(raised(e))
+    gets(out)
     try:
-        out["get_nodefault"] = [canon(row.get(p)) for p in probes]
-    except Exception as e:
-        out["get_nodefault"] = raised(e)
-    try:
-        out["json"] = json.loads(row.as_json)
-    except Exception as e:
-        if json_native(out["row"]):  # orjson refuses some values (integers beyond 64 bits): not this property's business
-            out["json"] = raised(e)
-    try:
-        again = read()
-        out["stable"] = all(wire.same(out[k], again[k]) for k in again)
-    except Exception as e:
+        again = read(first, {})
+        out["stable"] = all(k in out and wire.same(out[k], again[k]) for k in again)
+    except Exception:
         out["stable"] = False
+    seen, changed = set(), set()
+    for n, obj in held:  # every distinct object once
+        if id(obj) not in seen:
+            seen.add(id(obj))
+            if _change(n, obj):
+                changed.add(n)
+    out["changed"] = sorted(changed)
+    after = {}
+    try:
+        read(then, after)
+        gets(after)
+    except Exception as e:
+        after = {"views_raised": type(e).__name__}
+    out["after"] = after
     return out
 
 
-def judge_views(fields, want, out, probes, dflt):
-    """The clauses about one row: positions, width, every view, lookups by name."""
+def judge_reads(fields, want, out, probes, dflt):
+    """One pass over the views (those that were read), judged against the row: (clause, what was wrong) or None."""
     if "views_raised" in out:
-        return "a view of the row raised %s" % out["views_raised"]
+        return "a view of the row raised %s" % out["views_raised"], "raised"
     if not wire.same(out["row"], want):
-        return "a field's value is not at that field's position (or absent field not null / extra key not ignored)"
+        return "a field's value is not at that field's position (or absent field not null / extra key not ignored)", "row"
     if len(out["row"]) != len(fields):
-        return "row is not as wide as the field list"
+        return "row is not as wide as the field list", "row"
     pairs = [[f, v] for f, v in zip(fields, want)]
-    if not wire.same(out["as_map"], pairs):
-        return "as_map does not reproduce the field-to-value association"
+    if "as_map" in out and not wire.same(out["as_map"], pairs):
+        return "as_map does not reproduce the field-to-value association", "as_map"
     dd = {}
     for f, v in zip(fields, want):
         dd[f] = v
-    if not wire.same(out["as_dict"], [[k, v] for k, v in dd.items()]):
-        return "as_dict does not reproduce the field-to-value association"
-    if not wire.same(out["values"], want) or out["keys"] != list(fields):
-        return "values/keys views differ from the row"
+    if "as_dict" in out and not wire.same(out["as_dict"], [[k, v] for k, v in dd.items()]):
+        return "as_dict does not reproduce the field-to-value association", "as_dict"
+    if "values" in out and not wire.same(out["values"], want):
+        return "values/keys views differ from the row", "values"
+    if "keys" in out and out["keys"] != list(fields):
+        return "values/keys views differ from the row", "keys"
     for p, g in zip(probes, out["gets"]):
         if is_raised(g):
-            return "get(%r, default) raised %s" % (p, g["__raised__"])
+            return "get(%r, default) raised %s" % (p, g["__raised__"]), "row"
         exp = want[fields.index(p)] if p in fields else dflt
         if not wire.same(g, exp):
-            return "get(name, default) returned neither the field's value nor the default"
+            return "get(name, default) returned neither the field's value nor the default", "row"
     gn = out["get_nodefault"]
     if is_raised(gn):
-        return "get(name) raised %s" % gn["__raised__"]
+        return "get(name) raised %s" % gn["__raised__"], "row"
     for p, g in zip(probes, gn):
         exp = want[fields.index(p)] if p in fields else None
         if not wire.same(g, exp):
-            return "get(name) returned neither the field's value nor None"
+            return "get(name) returned neither the field's value nor None", "row"
     if "json" in out:
         js = out["json"]
         if is_raised(js):
-            return "as_json raised %s" % js["__raised__"]
+            return "as_json raised %s" % js["__raised__"], "json"
         # the JSON object has exactly the field names; every cell JSON can carry natively is the field's value
         # (how a non-JSON value such as bytes is rendered is the serialiser's choice, not part of the association)
         if not isinstance(js, dict) or set(js) != set(dd) or any(json_native(dd[f]) and not wire.same(js[f], dd[f]) for f in dd):
-            return "as_json does not reproduce the field-to-value association"
+            return "as_json does not reproduce the field-to-value association", "json"
+    return None
+
+
+def judge_views(fields, want, out, probes, dflt):
+    """The clauses about one row: positions, width, every view, lookups by name — on the first read, on an
+    unchanged second read, and after the caller changed what the earlier reads returned."""
+    c = judge_reads(fields, want, out, probes, dflt)
+    if c:
+        return c[0]
     if not out.get("stable", True):
         return "a view changed between two reads of the same row"
+    if "after" in out:
+        c = judge_reads(fields, want, out["after"], probes, dflt)
+        if c:
+            # the same thing was read, and found right, before the caller changed anything: the change did it.  A view
+            # the first pass left out may simply be wrong on its first read: the plain clause.
+            return AFTER + c[0] if (c[1] in out or c[1] == "raised") else c[0]
     return None
+
+
+def view(out, key):
+    """What the implementation returned for a view: the first read, or the last when the plan left it out of the first."""
+    if key in out:
+        return out[key]
+    return out.get("after", {}).get(key)
 
 
 def impl_row(case):
@@ -162,10 +292,12 @@ def impl_row(case):
 
     try:
         cls = Row.create_class(list(case["fields"]))
-        row = cls(mapping(case["dict"], case.get("mapping")))
+        d = mapping(case["dict"], case.get("mapping"))
+        row = cls(d)
     except Exception as e:
         return {"new_raised": type(e).__name__}
-    return views_of(row, case["probes"], case["default"])
+    spoil_input(d)
+    return views_of(row, case["probes"], case["default"], case.get("reads"))
 
 
 _SHADOW = None
@@ -204,10 +336,32 @@ def oracle_row(case, out):
 # ----------------------------------------------------------------------------- implementation: frames
 
 
+def frame_probes(names):
+    return list(names[:2]) + ["absent"]
+
+
+def frame_row_views(rows, names, limit=3):
+    """The views of a frame's first rows (the frame's rows that are Row objects; a frame made from plain tuples
+    keeps them as tuples, which have no views)."""
+    out = []
+    for r in list(rows)[:limit]:
+        out.append(views_of(r, frame_probes(names), "dflt") if hasattr(r, "as_map") else None)
+    return out
+
+
+def judge_frame_views(names, exp_rows, views):
+    for want, v in zip(exp_rows, views or []):
+        if v is not None:
+            c = judge_views(list(names), list(want), v, frame_probes(names), "dflt")
+            if c:
+                return c
+    return None
+
+
 def impl_frame(case):
     from orso import DataFrame
 
-    dicts = [dict(d) for d in case["dicts"]]
+    dicts = caller_dicts(case["dicts"], case.get("shared"))
     src = iter(dicts) if case.get("iterator") else dicts
     try:
         df = DataFrame(src)
@@ -215,16 +369,21 @@ def impl_frame(case):
         return {"raised": "StopIteration"}
     except Exception as e:
         return {"raised": type(e).__name__}
+    spoil_input(*dicts)
     try:
         out = {"names": list(df.column_names), "rows": [canon(tuple(r)) for r in df], "rowcount": df.rowcount,
                "shape": list(df.shape)}
+        out["views"] = frame_row_views(df, out["names"])
+        out["rows_again"] = [canon(tuple(r)) for r in df]
     except Exception as e:
         return {"raised": type(e).__name__}
     if case.get("append") is not None:
         try:
-            df.append(mapping(case["append"], case.get("mapping")))
+            entry = mapping(case["append"], case.get("mapping"))
+            df.append(entry)
+            spoil_input(entry)
             out["after_append"] = [canon(tuple(r)) for r in df._rows]
-            out["append_as_dict"] = [[k, canon(v)] for k, v in df._rows[-1].as_dict.items()]
+            out["append_last"] = views_of(df._rows[-1], frame_probes(out["names"]), "dflt")
         except Exception as e:
             out["append_raised"] = type(e).__name__
             out["after_append"] = [canon(tuple(r)) for r in df._rows]
@@ -247,6 +406,11 @@ def oracle_frame(case, out):
             return "a row is not as wide as the column list"
         if not wire.same(r, [d.get(k, None) for k in names]):
             return "a row does not hold each field's value at that field's position"
+    c = judge_frame_views(names, out["rows"], out.get("views"))
+    if c:
+        return c
+    if not wire.same(out.get("rows_again", out["rows"]), out["rows"]):
+        return "a frame no longer holds exactly the rows of its dictionaries (one per dictionary / append, values by field name)"
     if case.get("append") is not None:
         if "append_raised" in out:
             return "append(dict) raised %s" % out["append_raised"]
@@ -254,11 +418,9 @@ def oracle_frame(case, out):
         want = [[d.get(k, None) for k in names] for d in dicts] + [[a.get(k, None) for k in names]]
         if not wire.same(out["after_append"], want):
             return "append(dict) did not add exactly the record's row"
-        dd = {}
-        for k in names:
-            dd[k] = a.get(k, None)
-        if not wire.same(out["append_as_dict"], [[k, v] for k, v in dd.items()]):
-            return "as_dict does not reproduce the field-to-value association"
+        c = judge_views(names, want[-1], out["append_last"], frame_probes(names), "dflt")
+        if c:
+            return c
     return None
 
 
@@ -269,8 +431,13 @@ def arrow_table(fields, rows):
     return pyarrow.Table.from_arrays(cols, names=list(fields))
 
 
+VALIDATION_ERRORS = ("ExcessColumnsInDataError", "DataValidationError")
+
+
 def impl_append(case):
-    """append(dict) on names-only, schema-bound (untyped, nullable columns) and Arrow-derived frames."""
+    """append(dict) on names-only, schema-bound (untyped, nullable columns) and Arrow-derived frames; on the
+    bound ones also with dictionaries the schema's validation refuses (missing / extra keys, a value of the
+    wrong type)."""
     from orso import DataFrame
     from orso.schema import FlatColumn, RelationSchema
 
@@ -287,16 +454,20 @@ def impl_append(case):
                     schema = RelationSchema(name="t", columns=[FlatColumn(name=f) for f in fields])
                 else:
                     schema = list(fields)
-                df = DataFrame(rows=list(rows), schema=schema)
+                # lazy: the frame is backed by a generator of rows until something needs the list
+                df = DataFrame(rows=(r for r in list(rows)) if case.get("lazy") else list(rows), schema=schema)
         except Exception as e:
             return {"setup_raised": type(e).__name__}
         try:
-            df.append(mapping(case["dict"], case.get("mapping")))
+            entry = mapping(case["dict"], case.get("mapping"))
+            df.append(entry)
+            spoil_input(entry)
         except Exception as e:
             return {"raised": type(e).__name__, "rows": [canon(tuple(r)) for r in df._rows]}
         try:
             return {"rows": [canon(tuple(r)) for r in df._rows], "rowcount": df.rowcount,
-                    "last_as_dict": [[k, canon(v)] for k, v in df._rows[-1].as_dict.items()]}
+                    "last": views_of(df._rows[-1], case.get("probes", frame_probes(fields)), case.get("default", "dflt"),
+                                     case.get("reads"))}
         except Exception as e:
             return {"raised": type(e).__name__, "rows": []}
 
@@ -305,17 +476,20 @@ def oracle_append(case, out):
     fields, d = case["fields"], case["dict"]
     if "setup_raised" in out:
         return None  # the frame the dictionary would be appended to could not be made: nothing to judge here
+    prev = [list(r) for r in case["rows"]]
+    want = prev + [[d.get(f, None) for f in fields]]
+    bound = case["schema_bound"] or case.get("via") == "arrow"
     if "raised" in out:
+        if bound and out["raised"] in VALIDATION_ERRORS:
+            # the schema's validation refused the record (whether rightly is C03's business, whether the frame is
+            # left untouched C05's): here only that no row other than the record's own was stored
+            if not (wire.same(out["rows"], prev) or wire.same(out["rows"], want)):
+                return "append(dict) stored a row that is not the record's row"
+            return None
         return "append(dict) raised %s" % out["raised"]
-    want = [list(r) for r in case["rows"]] + [[d.get(f, None) for f in fields]]
     if not wire.same(out["rows"], want) or out["rowcount"] != len(want):
         return "append(dict) did not add exactly the record's row"
-    dd = {}
-    for f in fields:
-        dd[f] = d.get(f, None)
-    if not wire.same(out["last_as_dict"], [[k, v] for k, v in dd.items()]):
-        return "as_dict does not reproduce the field-to-value association"
-    return None
+    return judge_views(fields, want[-1], out["last"], case.get("probes", frame_probes(fields)), case.get("default", "dflt"))
 
 
 # ----------------------------------------------------------------------------- other features (context)
@@ -385,36 +559,57 @@ def impl_session(case):
                     if not op["dicts"]:
                         o = {"skip": True}
                     else:
-                        dicts = [dict(d) for d in op["dicts"]]
+                        dicts = caller_dicts(op["dicts"], op.get("shared"))
                         df = DataFrame(iter(dicts) if op.get("iterator") else dicts)
+                        spoil_input(*dicts)
                         frames.append(df)
                         o = {"names": list(df.column_names), "rows": [canon(tuple(r)) for r in df], "rowcount": df.rowcount}
+                        o["views"] = frame_row_views(df, o["names"])
                 elif k == "rows":
-                    df = DataFrame(rows=[tuple(r) for r in op["rows"]], schema=list(op["fields"]))
+                    rws = [tuple(r) for r in op["rows"]]
+                    df = DataFrame(rows=(r for r in rws) if op.get("lazy") else rws, schema=list(op["fields"]))
                     frames.append(df)
-                    o = {"names": list(df.column_names), "rows": [canon(tuple(r)) for r in df]}
+                    if op.get("lazy"):
+                        o = {"names": list(op["fields"]), "rows": [list(r) for r in op["rows"]]}  # nothing of it read yet
+                    else:
+                        o = {"names": list(df.column_names), "rows": [canon(tuple(r)) for r in df]}
                 elif k == "append":
                     if not frames:
                         o = {"skip": True}
                     else:
                         df = frames[op["frame"] % len(frames)]
-                        df.append(mapping(op["dict"], op.get("mapping")))
+                        entry = mapping(op["dict"], op.get("mapping"))
+                        j = op.get("from_row")
+                        if (j is not None and isinstance(df._rows, list) and df._rows
+                                and hasattr(df._rows[j % len(df._rows)], "as_dict")):
+                            # the record is the dictionary view of one of the frame's own rows, handed back as it is
+                            v = df._rows[j % len(df._rows)].as_dict
+                            if list(v) == list(op["dict"]) and wire.same(canon(v), op["dict"]):
+                                entry = v
+                        df.append(entry)
+                        spoil_input(entry)
                         o = {"rows": [canon(tuple(r)) for r in df._rows], "rowcount": df.rowcount,
-                             "last": views_of(df._rows[-1], op.get("probes", []), op.get("default"))}
+                             "last": views_of(df._rows[-1], op.get("probes", []), op.get("default"), op.get("reads"))}
                 elif k == "row":
-                    row = Row.create_class(list(op["fields"]))(mapping(op["dict"], op.get("mapping")))
-                    o = views_of(row, op["probes"], op["default"])
+                    entry = mapping(op["dict"], op.get("mapping"))
+                    row = Row.create_class(list(op["fields"]))(entry)
+                    spoil_input(entry)
+                    o = views_of(row, op["probes"], op["default"], op.get("reads"))
                 elif k == "reread":
                     if not frames:
                         o = {"skip": True}
                     else:
                         df = frames[op["frame"] % len(frames)]
                         o = {"names": list(df.column_names), "rows": [canon(tuple(r)) for r in df], "rowcount": df.rowcount}
+                        o["views"] = frame_row_views(df, o["names"])
                 elif k == "derive":
                     if not frames:
                         o = {"skip": True}
                     else:
                         df = frames[op["frame"] % len(frames)]
+                        # a frame still backed by a generator is read first: what deriving from an unread lazy frame
+                        # does to the frame is the operators' property (C03), not this one
+                        df.materialize()
                         how = op["how"]
                         if how == "slice":
                             nf = df.slice(0, op.get("n"))
@@ -424,6 +619,7 @@ def impl_session(case):
                             nf = df + df
                         frames.append(nf)
                         o = {"names": list(nf.column_names), "rows": [canon(tuple(r)) for r in nf]}
+                        o["views"] = frame_row_views(nf, o["names"])
         except Exception as e:
             o = {"op_raised": type(e).__name__}
         outs.append(o)
@@ -462,12 +658,36 @@ def session_expected(ops, outs=None):
                         rows = f["rows"][:]
                     else:
                         rows = f["rows"] + f["rows"]
+                    source = [list(r) for r in f["rows"]]
                     if outs is not None and "rows" in outs[i] and "names" in outs[i]:
                         rows = outs[i]["rows"]
-                    frames.append({"names": list(f["names"]), "rows": [list(r) for r in rows]})
-                    e = frames[-1]
-        exp.append(None if e is None else {"names": list(e["names"]), "rows": [list(r) for r in e["rows"]]})
+                    frames.append({"names": list(f["names"]), "rows": [list(r) for r in rows], "dicts": f.get("dicts", False)})
+                    e = dict(frames[-1], source=source)
+        exp.append(None if e is None else {"names": list(e["names"]), "rows": [list(r) for r in e["rows"]],
+                                           "dicts": e.get("dicts", False), "source": e.get("source")})
     return exp
+
+
+def session_frames(ops):
+    """The live frames after `ops`, by the mirror alone."""
+    frames = []
+    for op in ops:
+        k = op["op"]
+        if k == "frame" and op["dicts"]:
+            names = [str(x) for x in op["dicts"][0]]
+            frames.append({"names": names, "rows": [[d.get(n, None) for n in names] for d in op["dicts"]]})
+        elif k == "rows":
+            frames.append({"names": list(op["fields"]), "rows": [list(r) for r in op["rows"]]})
+        elif k in ("append", "derive") and frames:
+            f = frames[op["frame"] % len(frames)]
+            if k == "append":
+                f["rows"].append([op["dict"].get(n, None) for n in f["names"]])
+            else:
+                n = op.get("n")
+                rows = (f["rows"][:] if n is None else f["rows"][0:n]) if op["how"] == "slice" else (
+                    f["rows"][:] if op["how"] == "query" else f["rows"] + f["rows"])
+                frames.append({"names": list(f["names"]), "rows": [list(r) for r in rows]})
+    return frames
 
 
 def oracle_session(case, out):
@@ -500,6 +720,9 @@ def oracle_session(case, out):
                 return "a row is not as wide as the column list"
             if not wire.same(o["rows"], e["rows"]):
                 return "a row does not hold each field's value at that field's position"
+            c = judge_frame_views(e["names"], e["rows"], o.get("views"))
+            if c:
+                return c
         elif k == "append":
             if not wire.same(o["rows"], e["rows"]) or o["rowcount"] != len(e["rows"]):
                 return "append(dict) did not add exactly the record's row"
@@ -509,6 +732,24 @@ def oracle_session(case, out):
         elif k == "reread":
             if o["names"] != e["names"] or not wire.same(o["rows"], e["rows"]) or o["rowcount"] != len(e["rows"]):
                 return "a frame no longer holds exactly the rows of its dictionaries (one per dictionary / append, values by field name)"
+            c = judge_frame_views(e["names"], e["rows"], o.get("views"))
+            if c:
+                return c
+        elif k == "derive":
+            # what slice / query / + select is not this property's business; that a frame derived from a frame of
+            # dictionaries still has the first dictionary's columns and only rows of those dictionaries, each as wide
+            # as the column list, and that the rows' views still reproduce the association, is
+            if e["dicts"]:
+                if o["names"] != e["names"]:
+                    return "a frame derived from a frame of dictionaries does not have the first dictionary's columns"
+                if any(len(r) != len(e["names"]) for r in o["rows"]):
+                    return "a row of a derived frame is not as wide as the column list"
+                if any(not any(wire.same(r, sr) for sr in e["source"]) for r in o["rows"]):
+                    return "a frame derived from a frame of dictionaries holds a row that is not the row of one of its dictionaries"
+            if o["names"] == e["names"]:
+                c = judge_frame_views(e["names"], o["rows"], o.get("views"))
+                if c:
+                    return c
     return None
 
 
@@ -557,14 +798,39 @@ def session_wire(ops):
     return w
 
 
+def views_line(case):
+    """The same row as an object: the reads, the caller's changes and the reads after them, on the model of the
+    views' objects (Model/DictViews.lean with the decorators / return expressions of the working tree)."""
+    rd = case.get("reads") or {}
+    return "C02 views " + wire.line(case["fields"], case["dict"], list(rd.get("first", VIEWS)), list(rd.get("then", VIEWS)))
+
+
+def compare_views(case, out, mo):
+    if not mo.startswith("ok "):
+        raise InfraError("model rejected the views of %r: %r" % (case, mo))
+    m = wire.dec_all(mo[3:])
+    rd = case.get("reads") or {}
+    first, then = list(rd.get("first", VIEWS)), list(rd.get("then", VIEWS))
+    if "row" not in out or "views_raised" in out.get("after", {}):
+        return True, m
+    n = len(first)
+    for names, got, src in ((first, m[0][:n], out), (then, m[1], out["after"])):
+        for name, mv in zip(names, got):
+            if name == "as_json":
+                continue  # the serialised text is judged by the oracle on the parsed object
+            if not wire.same(mv, src.get(OUT_KEY[name])):
+                return False, m
+    return True, m
+
+
 def model_line(case):
     k = case["kind"]
     if k == "row":
-        return "C02 row " + wire.line(case["fields"], case["dict"], case["probes"], case["default"])
+        return "C02 row " + wire.line(case["fields"], case["dict"], case["probes"], case["default"], bool(case.get("mapping")))
     if k == "frame":
         return "C02 frame " + wire.line(case["dicts"])
     if k == "append":
-        return "C02 append " + wire.line(case["fields"], case["rows"], case["dict"])
+        return "C02 append " + wire.line(case["fields"], case["rows"], case["dict"], bool(case.get("mapping")))
     if k == "session":
         return "C02 session " + wire.line(session_wire(case["ops"]))
     return None
@@ -576,16 +842,17 @@ def compare_model(case, out, mo):
     m = wire.dec_all(mo[3:])
     k = case["kind"]
     if k == "row":
-        ok = ("row" in out and wire.same(m[0], out["row"]) and wire.same(m[1], out["as_map"]) and wire.same(m[2], out["as_dict"])
-              and wire.same(m[3], out["gets"]) and wire.same(m[4], out["keys"]) and wire.same(m[5], out["values"])
-              and wire.same(m[6], out["as_dict"]))  # the object as_json serialises is the dictionary view
+        ok = ("row" in out and wire.same(m[0], out["row"]) and wire.same(m[1], view(out, "as_map")) and wire.same(m[2], view(out, "as_dict"))
+              and wire.same(m[3], out["gets"]) and wire.same(m[4], view(out, "keys")) and wire.same(m[5], view(out, "values"))
+              and wire.same(m[6], view(out, "as_dict")))  # the object as_json serialises is the dictionary view
     elif k == "frame":
         if m[0] == "StopIteration":
             ok = out.get("raised") == "StopIteration"
         else:
             ok = "raised" not in out and m[0] == out["names"] and wire.same(m[1], out["rows"])
     elif k == "append":
-        ok = "setup_raised" in out or ("raised" not in out and wire.same(m[0], out["rows"]))
+        ok = ("setup_raised" in out or out.get("raised") in VALIDATION_ERRORS  # the schema's validation is not in this model (C03)
+              or ("raised" not in out and wire.same(m[0], out["rows"])))
     else:
         ok = session_matches(case, out, m[0])
     return ok, m
@@ -607,11 +874,11 @@ def session_matches(case, out, mouts):
             ok = mo[0] == "frame" and mo[1] == o["names"] and wire.same(mo[2], o["rows"])
         elif k == "append":
             last = o["last"]
-            ok = (mo[0] == "appended" and wire.same(mo[1], o["rows"]) and "row" in last and wire.same(mo[2], last["as_map"])
-                  and wire.same(mo[3], last["as_dict"]) and wire.same(mo[4], last["gets"]))
+            ok = (mo[0] == "appended" and wire.same(mo[1], o["rows"]) and "row" in last and wire.same(mo[2], view(last, "as_map"))
+                  and wire.same(mo[3], view(last, "as_dict")) and wire.same(mo[4], last["gets"]))
         else:
-            ok = (mo[0] == "row" and "row" in o and wire.same(mo[1], o["row"]) and wire.same(mo[2], o["as_map"])
-                  and wire.same(mo[3], o["as_dict"]) and wire.same(mo[4], o["gets"]))
+            ok = (mo[0] == "row" and "row" in o and wire.same(mo[1], o["row"]) and wire.same(mo[2], view(o, "as_map"))
+                  and wire.same(mo[3], view(o, "as_dict")) and wire.same(mo[4], o["gets"]))
         if not ok:
             return False
     return True
@@ -669,6 +936,14 @@ def text_dict(d):
     return isinstance(d, dict) and all(isinstance(x, str) for x in d)
 
 
+def valid_reads(c):
+    r = c.get("reads")
+    if r is None:
+        return True
+    return (isinstance(r, dict) and set(r) <= {"first", "then"}
+            and all(isinstance(r[k], list) and all(n in VIEWS for n in r[k]) for k in r))
+
+
 def valid_op(op):
     k = op["op"]
     if k == "ctx":
@@ -679,10 +954,11 @@ def valid_op(op):
         w = len(op["fields"])
         return all(isinstance(f, str) for f in op["fields"]) and all(isinstance(r, list) and len(r) == w for r in op["rows"])
     if k == "append":
-        return isinstance(op["frame"], int) and op["frame"] >= 0 and text_dict(op["dict"]) and all(
-            isinstance(p, str) for p in op.get("probes", []))
+        return (isinstance(op["frame"], int) and op["frame"] >= 0 and text_dict(op["dict"]) and valid_reads(op)
+                and (op.get("from_row") is None or (isinstance(op["from_row"], int) and op["from_row"] >= 0))
+                and all(isinstance(p, str) for p in op.get("probes", [])))
     if k == "row":
-        return (all(isinstance(f, str) for f in op["fields"]) and text_dict(op["dict"])
+        return (all(isinstance(f, str) for f in op["fields"]) and text_dict(op["dict"]) and valid_reads(op)
                 and all(isinstance(p, str) for p in op["probes"]))
     if k == "reread":
         return isinstance(op["frame"], int) and op["frame"] >= 0
@@ -696,20 +972,19 @@ def valid_case(c):
     try:
         k = c["kind"]
         if k == "row":
-            return (all(isinstance(f, str) for f in c["fields"]) and text_dict(c["dict"])
+            return (all(isinstance(f, str) for f in c["fields"]) and text_dict(c["dict"]) and valid_reads(c)
                     and all(isinstance(p, str) for p in c["probes"]))
         if k == "frame":
             return all(text_dict(d) for d in c["dicts"]) and (c.get("append") is None or text_dict(c["append"]))
         if k == "append":
             w = len(c["fields"])
             bound = c["schema_bound"] or c.get("via") == "arrow"
-            if bound and (len(set(c["fields"])) != w or set(c["dict"]) != set(c["fields"])):
+            if bound and len(set(c["fields"])) != w:
                 return False
-            if c.get("via") == "arrow" and not (
-                all(type(x) is int and abs(x) < 2**62 for r in c["rows"] for x in r)
-                and all(type(x) is int and abs(x) < 2**62 for x in c["dict"].values())):
+            if c.get("via") == "arrow" and not all(type(x) is int and abs(x) < 2**62 for r in c["rows"] for x in r):
                 return False
-            return all(isinstance(f, str) for f in c["fields"]) and all(len(r) == w for r in c["rows"]) and text_dict(c["dict"])
+            return (all(isinstance(f, str) for f in c["fields"]) and all(len(r) == w for r in c["rows"]) and text_dict(c["dict"])
+                    and valid_reads(c) and all(isinstance(p, str) for p in c.get("probes", [])))
         if k == "ctx":
             return c["what"] in CTX_KINDS and all(isinstance(f, str) for f in c["fields"])
         if k == "session":
@@ -816,8 +1091,32 @@ def _drop_key_variants(x):
                 y = dict(x)
                 y[k] = c
                 yield y
+        if structural and x.get("kind") == "append" and isinstance(x.get("fields"), list):
+            # a field together with its column and its key (a bound frame refuses a record with other keys)
+            for i, f in enumerate(x["fields"]):
+                try:
+                    y = dict(x)
+                    y["fields"] = x["fields"][:i] + x["fields"][i + 1:]
+                    y["rows"] = [r[:i] + r[i + 1:] for r in x["rows"]]
+                    y["dict"] = {k: v for k, v in x["dict"].items() if k != f}
+                    yield y
+                except Exception:
+                    pass
+            for k in x["dict"]:
+                if x["dict"][k] not in (0, None):
+                    y = dict(x)
+                    y["dict"] = dict(x["dict"], **{k: 0})
+                    yield y
+        if (structural and isinstance(x.get("dicts"), list) and len(x["dicts"]) > 1
+                and any(a == b for a, b in zip(x["dicts"], x["dicts"][1:]))):
+            # the same record twice: both copies have to shrink together
+            for d in x["dicts"]:
+                for v in [{}] + [{k: 0} for k in d] + [{k: d[k]} for k in d]:
+                    y = dict(x)
+                    y["dicts"] = [dict(v), dict(v)]
+                    yield y
         if structural:
-            for k in ("mapping", "iterator"):
+            for k in ("mapping", "iterator", "reads", "shared", "from_row", "lazy"):
                 if x.get(k):
                     y = dict(x)
                     del y[k]
@@ -933,15 +1232,24 @@ def classify(ctx, c):
         seen = SEEN_CTX.get(tuple(c["fields"]))
         if seen:
             ctx.hit("row-after-other-feature-same-fields")
+    elif k == "frame":
+        if c.get("shared") and any(list(a.items()) == list(b.items()) for a, b in zip(c["dicts"], c["dicts"][1:])):
+            ctx.hit("same-dictionary-object-twice")
     elif k == "ctx":
         ctx.hit("ctx:" + c["what"])
         SEEN_CTX.setdefault(tuple(c["fields"]), set()).add(c["what"])
     elif k == "append":
-        ctx.hit("append-via:" + (c.get("via") or ("schema" if c["schema_bound"] else "names")))
+        ctx.hit("append-via:" + (c.get("via") or ("schema" if c["schema_bound"] else "names")) + (":lazy" if c.get("lazy") else ""))
     elif k == "session":
         made, dict_after = {}, False
         for op in c["ops"]:
             ctx.hit("session-op:" + op["op"] + (":" + op["what"] if op["op"] == "ctx" else ""))
+            if op["op"] == "rows" and op.get("lazy"):
+                ctx.hit("session:frame-backed-by-a-generator")
+            if op.get("from_row") is not None:
+                ctx.hit("session:append-of-a-row's-own-dictionary-view")
+            if op.get("shared") and any(a == b for a, b in zip(op.get("dicts", []), op.get("dicts", [])[1:])):
+                ctx.hit("same-dictionary-object-twice")
             if op["op"] == "ctx" and op["what"] in ("arrow", "tuples"):
                 made[tuple(op["fields"])] = True
                 made[frozenset(op["fields"])] = True
@@ -956,15 +1264,59 @@ def classify(ctx, c):
 SEEN_CTX = {}
 
 
+def observe(ctx, c, out):
+    """Measured distribution of what the implementation handed out: which views returned an object the caller
+    could change (and did), how many rows had every view read three times, which appends the schema refused."""
+    def one(v, plan):
+        if isinstance(v, dict) and "changed" in v:
+            ctx.hit("row-views-read-changed-reread")
+            ctx.hit("views-changeable:" + (",".join(v["changed"]) or "none"))
+            if plan:
+                ctx.hit("reads-plan:first=%d" % len(plan.get("first", VIEWS)))
+                missing = [n for n in VIEWS if n not in plan.get("first", VIEWS)]
+                if missing:
+                    ctx.hit("view-first-read-after-change")
+
+    if not isinstance(out, dict):
+        return
+    k = c["kind"]
+    if k == "row":
+        one(out, c.get("reads"))
+    elif k == "frame":
+        for v in out.get("views") or []:
+            one(v, None)
+        one(out.get("append_last"), None)
+    elif k == "append":
+        one(out.get("last"), c.get("reads"))
+        if out.get("raised") in VALIDATION_ERRORS:
+            ctx.hit("append-refused-by-validation:" + (c.get("via") or "schema"))
+        elif (c["schema_bound"] or c.get("via")) and set(c["dict"]) != set(c["fields"]) and "raised" not in out:
+            ctx.hit("append-bound-other-keys-accepted")
+    elif k == "session":
+        for op, o in zip(c["ops"], out.get("ops", [])):
+            if op["op"] == "row":
+                one(o, op.get("reads"))
+            elif op["op"] == "append":
+                one(o.get("last"), op.get("reads"))
+            elif op["op"] in ("frame", "reread", "derive"):
+                for v in o.get("views") or []:
+                    one(v, None)
+                if op["op"] == "derive" and o.get("views"):
+                    ctx.hit("derived-frame-row-views")
+
+
 def evaluate(ctx, cases):
     lines = [(i, model_line(c)) for i, c in enumerate(cases)]
     lines = [(i, l) for i, l in lines if l is not None]
     mouts = dict(zip([i for i, _ in lines], ctx.model.batch([l for _, l in lines])))
+    vl = [i for i, c in enumerate(cases) if c["kind"] == "row"]
+    vouts = dict(zip(vl, ctx.model.batch([views_line(cases[i]) for i in vl]))) if vl else {}
     for i, c in enumerate(cases):
         out, clause = run_case(c)
         nontrivial = bool(c.get("fields") or c.get("dicts") or c.get("ops") or c.get("cases"))
         ctx.case(c, nontrivial)
         classify(ctx, c)
+        observe(ctx, c, out)
         if clause is not None:
             report(ctx, c, clause, out)
             HISTORY.append(c)
@@ -975,6 +1327,10 @@ def evaluate(ctx, cases):
             mirror_check(ctx, c, out, m)
             if not ok:
                 ctx.disagree(c, out, m)
+        if i in vouts:
+            ok, m = compare_views(c, out, vouts[i])
+            if not ok:
+                ctx.disagree(c, out, m, what="the objects the views hand out: model and implementation differ")
 
 
 def evaluate_cold(ctx, cases):
@@ -1024,6 +1380,18 @@ def gen_mapping(rng):
     return None if r < 0.8 else "ordered" if r < 0.9 else "default"
 
 
+def gen_reads(rng):
+    """Which views are read before the caller changes what it was handed, and in which order all are read after."""
+    r = rng.random()
+    if r < 0.6:
+        return None
+    first = [v for v in VIEWS if rng.random() < 0.6]
+    rng.shuffle(first)
+    then = list(VIEWS)
+    rng.shuffle(then)
+    return {"first": first, "then": then}
+
+
 def gen_row_case(rng):
     fields = gen_fields(rng)
     d = gen_dict(rng, fields)
@@ -1032,6 +1400,9 @@ def gen_row_case(rng):
     m = gen_mapping(rng)
     if m:
         c["mapping"] = m
+    rd = gen_reads(rng)
+    if rd:
+        c["reads"] = rd
     return c
 
 
@@ -1044,7 +1415,12 @@ def gen_frame_case(rng):
             dicts.append({k: gen_pyval(rng, 1) for k in first_keys})
         else:
             dicts.append(gen_dict(rng, first_keys))
+    if len(dicts) > 1 and rng.random() < 0.2:
+        j = rng.randrange(1, len(dicts))
+        dicts[j] = dict(dicts[j - 1])  # the same record twice in a row
     c = {"kind": "frame", "dicts": dicts, "iterator": rng.random() < 0.4}
+    if rng.random() < 0.3:
+        c["shared"] = True
     if dicts and rng.random() < 0.5:
         c["append"] = gen_dict(rng, first_keys)
         m = gen_mapping(rng)
@@ -1057,24 +1433,44 @@ def gen_append_case(rng):
     n = rng.choice([0, 1, 2, 3, 4])
     fields = rng.sample(NAMES, n) if rng.random() < 0.5 else rng.sample(SMALL, min(n, 4))
     r = rng.random()
+    def spoil(d, value):
+        """A record the schema's validation should refuse: a field missing, a key too many, a value of another type."""
+        w = rng.random()
+        if w < 0.35 and d:
+            d.pop(rng.choice(list(d)))
+        elif w < 0.7:
+            d[rng.choice([n for n in NAMES if n not in d])] = value()
+        elif d:
+            d[rng.choice(list(d))] = rng.choice([None, "text", 1.5, [1]])
+        return d
+
     if r < 0.2 and fields:
         rows = [[rng.randint(-5, 5) for _ in fields] for _ in range(rng.randint(1, 3))]
         keys = list(fields)
         rng.shuffle(keys)
-        return {"kind": "append", "fields": fields, "rows": rows, "dict": {k: rng.randint(-9, 9) for k in keys},
-                "schema_bound": True, "via": "arrow"}
+        d = {k: rng.randint(-9, 9) for k in keys}
+        if rng.random() < 0.35:
+            d = spoil(d, lambda: rng.randint(-9, 9))
+        return {"kind": "append", "fields": fields, "rows": rows, "dict": d, "schema_bound": True, "via": "arrow"}
     rows = [[gen_pyval(rng, 1) for _ in fields] for _ in range(rng.randint(0, 3))]
     bound = r < 0.6
     if bound:
         keys = list(fields)
         rng.shuffle(keys)
         d = {k: gen_pyval(rng, 2) for k in keys}
+        if rng.random() < 0.35:
+            d = spoil(d, lambda: gen_pyval(rng, 1))
     else:
         d = gen_dict(rng, fields)
     c = {"kind": "append", "fields": fields, "rows": rows, "dict": d, "schema_bound": bound}
+    if rng.random() < 0.25:
+        c["lazy"] = True
     m = gen_mapping(rng)
-    if m and not bound:
+    if m and (not bound or rng.random() < 0.5):
         c["mapping"] = m
+    rd = gen_reads(rng)
+    if rd:
+        c["reads"] = rd
     return c
 
 
@@ -1113,16 +1509,32 @@ def gen_session_case(rng):
             fk = list(dict.fromkeys(fk))
             k = rng.choice([0, 1, 1, 2, 3])
             dicts = [{f: gen_pyval(rng, 1) for f in fk}] + [gen_dict(rng, fk) for _ in range(max(k - 1, 0))] if k else []
+            if len(dicts) > 1 and rng.random() < 0.3:
+                dicts[1] = dict(dicts[0])
             ops.append({"op": "frame", "dicts": dicts, "iterator": rng.random() < 0.4})
+            if rng.random() < 0.4:
+                ops[-1]["shared"] = True
         elif r < 0.45:
             f = variants(rng, base)
             ops.append({"op": "rows", "fields": f, "rows": [[gen_pyval(rng, 1) for _ in f] for _ in range(rng.randint(0, 2))]})
+            if rng.random() < 0.3:
+                ops[-1]["lazy"] = True
         elif r < 0.65:
             op = {"op": "append", "frame": rng.randint(0, 5), "dict": gen_dict(rng, variants(rng, base)),
                   "probes": list(base[:2]) + ["absent"], "default": rng.choice([None, 0, "dflt"])}
+            if rng.random() < 0.2:
+                fr = session_frames(ops)
+                tgt = fr[op["frame"] % len(fr)] if fr else None
+                if tgt and tgt["rows"]:
+                    j = rng.randrange(len(tgt["rows"]))
+                    op["dict"] = dict(zip(tgt["names"], tgt["rows"][j]))
+                    op["from_row"] = j
             m = gen_mapping(rng)
             if m:
                 op["mapping"] = m
+            rd = gen_reads(rng)
+            if rd:
+                op["reads"] = rd
             ops.append(op)
         elif r < 0.83:
             f = variants(rng, base)
@@ -1131,6 +1543,9 @@ def gen_session_case(rng):
             m = gen_mapping(rng)
             if m:
                 op["mapping"] = m
+            rd = gen_reads(rng)
+            if rd:
+                op["reads"] = rd
             ops.append(op)
         elif r < 0.91:
             ops.append({"op": "reread", "frame": rng.randint(0, 5)})
@@ -1156,6 +1571,17 @@ def exhaustive_small():
                                "probes": ["a", "b", "c", "z", "q"], "default": "dflt"}
                         if len(ks) < 2:
                             break
+
+
+def exhaustive_reads():
+    """Every subset of the five views as the ones read BEFORE the caller changes what it was handed (all five are
+    read after, in reverse order), for the empty, a one-field, a two-field and a repeated-name field list."""
+    d = {"b": [2], "a": 1, "z": 9}
+    for fields in ([], ["a"], ["a", "b"], ["a", "a"]):
+        for r in range(len(VIEWS) + 1):
+            for first in itertools.combinations(VIEWS, r):
+                yield {"kind": "row", "fields": list(fields), "dict": d, "probes": ["a", "b", "q"], "default": "dflt",
+                       "reads": {"first": list(first), "then": list(reversed(VIEWS))}}
 
 
 def exhaustive_sessions():
@@ -1191,8 +1617,10 @@ def gen_any(rng):
 
 def run(ctx):
     ctx.note("rule", "Row(dict) / DataFrame(dicts) / append(dict) cases, sessions of such operations on several live frames, "
-             "and other row-class-creating features in between, all in one interpreter; non-trivial = at least one field, "
-             "dictionary or operation; distinct by canonical JSON")
+             "and other row-class-creating features in between, all in one interpreter; on every row the views are read, read "
+             "again, every changeable object handed out is changed by the caller, and all are read once more; the caller's own "
+             "dictionaries are emptied after use; non-trivial = at least one field, dictionary or operation; distinct by "
+             "canonical JSON")
     try:
         cases = list(exhaustive_small())
         for i in range(0, len(cases), 4000):
@@ -1205,6 +1633,10 @@ def run(ctx):
             evaluate(ctx, cases[i: i + 4000])
         sess = list(exhaustive_sessions())
         evaluate(ctx, sess)
+        rds = list(exhaustive_reads())
+        evaluate(ctx, rds)
+        ctx.note("exhaustive_reads", "%d rows: every subset of the %d views read before the caller changes every changeable object "
+                 "it was handed, all views read after, for 4 field lists" % (len(rds), len(VIEWS)))
         ctx.note("exhaustive_scope", "all field lists of length <= 3 over 3 names (duplicates included) x all dictionaries over "
                  "subsets of 4 keys in two insertion orders (%d cases), once in a fresh interpreter state and once after each of %d "
                  "other features created its row class for every one of those field lists; %d sessions: every (other feature, "
